@@ -148,12 +148,14 @@ def long_sources(plain):
         return
     yield ("nl-after-space",) + build(lambda i: "\n" if 0 < i <= n and plain[i - 1] == " " else "")
     yield ("tab-before-digit",) + build(lambda i: "\t" if i < n and plain[i].isdigit() and (i == 0 or not plain[i - 1].isdigit()) else "")
+    o_tag, c_tag = ("<i>", "</i>") if not (set("<i>/") & set(plain)) else ("\u00ab", "\u00bb")  # foreign to the plain text
+
     def tags(i):
         out = ""
         if 0 < i <= n and plain[i - 1] != " " and (i == n or plain[i] == " "):
-            out += "</i>"
+            out += c_tag
         if i < n and plain[i] != " " and (i == 0 or plain[i - 1] == " "):
-            out += "<i>"
+            out += o_tag
         return out
     yield ("i-around-words",) + build(tags)
     yield ("nl-every-3rd-space",) + build(lambda i: "\n\n" if 0 < i <= n and plain[i - 1] == " " and plain[:i].count(" ") % 3 == 0 else "")
@@ -187,6 +189,10 @@ def shards(tier, seed):
     for plain in PLAINS[tier]:
         for r in range(16):
             out.append({"part": "forced", "plain": plain, "r": r, "n": 16, "kmax": KMAX[tier]})
+    # inserted material with non-ASCII characters (no-break space, curly quote, section mark in an attribute): one source
+    # character is several bytes
+    for r in range(8):
+        out.append({"part": "forced", "plain": "wxyz", "r": r, "n": 8, "kmax": 2, "inserts": ["\u00a0", "\u201c", "<i \u00a7>", "</i>", "\u2003\u2003"]})
     for plain in REPEATED[tier]:
         for r in range(8):
             out.append({"part": "forced", "plain": plain, "r": r, "n": 8, "kmax": 3 if tier == "thorough" else 2, "inserts": ["\t", "<i>"]})
@@ -271,7 +277,9 @@ def run_shard(sh):
         return st
     plain = sh["plain"]
     sets = list(annot.span_sets(len(plain), 2))
-    for source, pos in itertools.islice(annot.forced_sources(plain, sh.get("inserts") or INSERTS, sh["kmax"]), sh["r"], None, sh["n"]):
+    # inserted material must be foreign to the plain text (the statement's premise): drop inserts that share a character with it
+    inserts = [x for x in (sh.get("inserts") or INSERTS) if not (set(x) & set(plain))]
+    for source, pos in itertools.islice(annot.forced_sources(plain, inserts, sh["kmax"]), sh["r"], None, sh["n"]):
         for ss in sets:
             run(plain, source, pos, ss, ("unchecked",), (True, False))
     return st
